@@ -54,6 +54,14 @@ def run(chk):
                 outs[k] = outs.get(k, 0) + 1
                 if len(cur) > 1:
                     sessions.add(hash(tuple(cur)))
+    # well-formedness on reused builders (the trace spec is the same; history independence itself is C12)
+    th = record("history", chk.path("hist.ndjson"), seed=chk.seed, histories=4 if q else 40, calls=50 if q else 150)
+    rh = tv("Trace_Build", "Trace_Build.cfg", th, reset_events=("NewBuilder",), shards=12, tag="C09-hist")
+    chk.add_tv("reused-builders", rh)
+    for rj in rh["rejects"]:
+        chk.violation("reused builder: " + sig(rj["event"], rj["diag"], rj["session"][-40:]),
+                      "a build on a reused builder is not a behaviour of Builder: %s" % json.dumps(rj["event"])[:300],
+                      {"session_tail": rj["session"][max(0, rj["index_in_session"] - 60):rj["index_in_session"]], "spec_diagnosis": rj["diag"]})
     chk.cov["distinct_nontrivial"] = len(sessions)
     if outs.get("ok", 0) < 200 or sum(v for k, v in outs.items() if k.startswith("err")) < 50:
         raise ToolError("vacuity: outcomes %s" % outs)
